@@ -87,7 +87,7 @@ func c18Convert(ctx context.Context, o *out, text []byte) {
 // c18Case runs every CSV entry point on one chunk stream
 func c18Case(ctx context.Context, o *out, dir string, id int, tag string, stream []byte) error {
 	o.printf("CASE %d %s\n", id, tag)
-	o.printf("S %s\n", hexOrDash(normalizeStream(stream)))
+	o.printf("S %s\n", hexOrDash(normalizeEncoded(stream)))
 	lines, serr := c18ChunkLines(ctx, stream)
 	o.printf("SRC => %d %d\n", errFlag(serr), len(lines))
 	for _, l := range lines {
